@@ -229,6 +229,37 @@ impl Check for C19 {
                     }
                 };
                 rec.borrow_mut().session_id = Some(sid_value(session.session_id()));
+                // one run in three: the application asks for a uni stream once and gives up after that one poll (a
+                // timeout, a dropped future) before the task that keeps waiting starts; that task must still be woken.
+                // (Two tasks waiting in accept_uni() at the same time share one waker slot and are not supported by
+                // h3-webtransport - DESIGN 7.4 O6 - so the two waits are strictly one after the other here.)
+                if draw(3) == 2 {
+                    obs::count("probe.accept_uni_abandoned_by_an_earlier_waiter");
+                    let mut fut = Box::pin(session.accept_uni());
+                    let first = poll_fn(|cx| std::task::Poll::Ready(std::future::Future::poll(fut.as_mut(), cx))).await;
+                    drop(fut);
+                    if let std::task::Poll::Ready(Ok(Some((sid, mut s)))) = first {
+                        // it got a stream after all: read it like the regular reader would
+                        let id = s.recv_id().into_inner();
+                        rec.borrow_mut().incoming.insert(id, (sid_value(sid), vec![], false));
+                        let rec = rec.clone();
+                        exec::spawn(format!("wt-uni-reader{id}"), async move {
+                            loop {
+                                match poll_fn(|cx| s.poll_data(cx)).await {
+                                    Ok(Some(b)) => rec.borrow_mut().incoming.get_mut(&id).unwrap().1.extend_from_slice(&b),
+                                    Ok(None) => {
+                                        rec.borrow_mut().incoming.get_mut(&id).unwrap().2 = true;
+                                        return;
+                                    }
+                                    Err(e) => {
+                                        rec.borrow_mut().read_errs.push(format!("uni {id}: {e}"));
+                                        return;
+                                    }
+                                }
+                            }
+                        });
+                    }
+                }
                 // incoming uni streams
                 {
                     let session = session.clone();
